@@ -85,6 +85,13 @@ def _parse_config_path(config_path: str) -> str:
   if spec is None:
     raise ValueError('Package not found', pkg)
   file_sys_path = spec.origin
+  if file_sys_path is None:
+    # A namespace package (directories without `__init__.py`) has no origin.
+    for location in spec.submodule_search_locations or ():
+      path = os.path.join(location, filename)
+      if os.path.isfile(path):
+        return path
+    raise ValueError('Config not found in namespace package', pkg)
   # file_sys_path often ends with __init__.py.
   path = os.path.join(os.path.dirname(file_sys_path), filename)
   return path
